@@ -116,6 +116,10 @@ func runDeleWithdraw(ctx *action.Context, tx action.RawTx) (bool, action.Respons
 
 	// initiate a withdrawal which matures at block [height+RewardsMaturityTime]
 	coinAmt := withdraw.Amount.ToCoin(ctx.Currencies)
+	// the amount must be a valid (known currency, non-negative) amount
+	if !coinAmt.IsValid() {
+		return helpers.LogAndReturnFalse(ctx.Logger, action.ErrInvalidAmount, withdraw.Tags(), errors.New("Coin is not valid"))
+	}
 	err = ctx.NetwkDelegators.Rewards.Withdraw(withdraw.Delegator, coinAmt.Amount, height+options.RewardsMaturityTime)
 	if err != nil {
 		return helpers.LogAndReturnFalse(ctx.Logger, netwkDeleg.ErrInitiateWithdrawal, withdraw.Tags(), err)
